@@ -16,7 +16,7 @@ RULE = ("self-describing scripts judged against a Python destructuring reference
         "0..4 (quick) / 0..5 (thorough) into plain and spread arguments (empty spreads included), `f(xs..)` against "
         "`f(xs[0], ..)`, freshness of the rest list, `[xs.., ys..] == xs + ys` for lengths 0..3. non-trivial = distinct "
         "(position, pattern text, outcome class)")
-ASSUMPTIONS = ["a destructuring pair whose key is `_`, and the shorthand `{_}`, are not generated (known quirk K3)",
+ASSUMPTIONS = ["the shorthand `{_}` (discard without lookup) is not generated in the random patterns; pairs whose key is `_` are (defect D10, repaired)",
                "patterns have depth <= 2; computed (non-literal) keys in patterns are covered only by the shape stream"]
 
 
@@ -340,7 +340,7 @@ def list_patterns(width, rng=None, sample=None):
     return pats
 
 
-OBJ_KEYS = ["a", "b", "k 1", "c", "é"]
+OBJ_KEYS = ["a", "b", "k 1", "c", "é", "_"]
 
 
 def obj_patterns(width, rng, sample=None):
@@ -353,7 +353,7 @@ def obj_patterns(width, rng, sample=None):
         items = []
         for i, key in enumerate(ks):
             c = rng.randrange(6)
-            if c == 0 and L.is_ident(key):
+            if c == 0 and L.is_ident(key) and key != "_":
                 items.append(("short", key))
             elif c <= 2:
                 items.append(("pair", key, ("name", f"w{i}")))
